@@ -61,6 +61,10 @@ struct Gates {
     hold_run: AtomicBool,
     /// hold the next run at `run.end` (after it has read `should_notify`, before it releases the lock)
     hold_end: AtomicBool,
+    /// the tick in progress asked for a hold: if its lock attempt times out it waits (at `tick.lock_timeout`, before it
+    /// re-arms `should_notify`) until the run it spawned has parked, so that "the run read the flag before the tick
+    /// re-armed it" does not depend on how fast the pool thread is scheduled
+    want_hold: AtomicBool,
     /// hold the next run in front of its k-th scored item (0 = off); falls back to `run.end`
     hold_item: AtomicU64,
     item_count: AtomicU64,
@@ -196,6 +200,7 @@ fn run_history(rng: &mut Rng, mode: &str, _k: usize) -> String {
     let gates = Arc::new(Gates {
         hold_run: AtomicBool::new(false),
         hold_end: AtomicBool::new(false),
+        want_hold: AtomicBool::new(false),
         hold_item: AtomicU64::new(0),
         item_count: AtomicU64::new(0),
         parked_kind: AtomicU64::new(0),
@@ -267,6 +272,17 @@ fn run_history(rng: &mut Rng, mode: &str, _k: usize) -> String {
             }
             "tick.spawn" => {
                 g.spawned.fetch_add(1, Ordering::SeqCst);
+            }
+            "tick.lock_timeout" => {
+                if g.want_hold.load(Ordering::SeqCst) {
+                    let t0 = std::time::Instant::now();
+                    while !g.parked.load(Ordering::SeqCst)
+                        && g.spawned.load(Ordering::SeqCst) != g.run_ended.load(Ordering::SeqCst)
+                        && t0.elapsed() < Duration::from_secs(5)
+                    {
+                        std::thread::sleep(Duration::from_micros(100));
+                    }
+                }
             }
             "tick.cancel_lock" => {
                 // the cancelling tick is about to block on the worker lock: let a parked run go
@@ -520,7 +536,9 @@ fn run_history(rng: &mut Rng, mode: &str, _k: usize) -> String {
                     h.gates.hold_end.store(true, Ordering::SeqCst);
                 }
                 eprintln!("EV-START tick hold={hold}");
+                h.gates.want_hold.store(hold != 0, Ordering::SeqCst);
                 let st = h.nucleo.tick(if hold != 0 || run_parked { 15 } else { 3000 });
+                h.gates.want_hold.store(false, Ordering::SeqCst);
                 // a run spawned with a hold flag that has not reached its gate yet: wait until it parks
                 let t0 = std::time::Instant::now();
                 while hold != 0
